@@ -61,8 +61,8 @@ CHECKS = {
    note="Commands whose validity is ambiguous at the injection point are judged for 'no panic' only. The HTTP layer is not driven."),
  "C15": dict(level="fault_enumeration", ref="DESIGN.md §3 C15", engine="pv-server",
    technique="runtime monitoring with cancel injection after every event (incl. while the compile thread is alive); ordering of cancel() completion vs output() calls, actor state and permits at quiescence",
-   text="cancel() is injected at every idle point on each party with gated and ungated MPC messages, and while the compile thread of a heavier program is alive. If it returned Ok: the actor has stopped, a scheduled party with a destination got exactly one notification (Cancelled or the real result), none after cancel returned, and the party's permit is back.",
-   note="Current-thread runtime with paused clock (exact); a multi-thread stress mode was not built. cancel() returning Err is outside the property and only counted."),
+   text="cancel() is injected at every idle point on each party with gated and ungated MPC messages, while the compile thread of a heavier program is alive, after a stray (rejected) command, together with a consts call that later fails, and on a multi-thread runtime after k*0.7 ms. If it returned Ok: the actor has stopped, a scheduled party with a destination got exactly one notification (Cancelled or the real result), none after cancel returned, and the party's permit is back.",
+   note="Exact mode: current-thread runtime with paused clock. Stress mode: multi-thread runtime with real sub-millisecond delays, judged only at quiescence before a 60 s watchdog (else inconclusive). cancel() returning Err is outside the property and only counted."),
  "C16": dict(level="exploration", ref="DESIGN.md §3 C16", engine="pv-server",
    technique="runtime monitoring: incompatible policies driven through scripted and random arrival/delivery orders; schedule results, outputs and msg() call counter observed",
    text="Program or leader mismatch at each single follower and ill-typed programs at each party, n in {2,3}, every leader, validate before and after the follower's schedule: the schedule calls of that follower and of the leader end with an error, no Ok result is delivered anywhere and the client's msg() counter stays 0.",
